@@ -21,6 +21,7 @@ var checks = map[string]func(*Ctx){
 	"C13": runC13,
 	"C14": runC14,
 	"C15": runC15,
+	"C16": runC16,
 	"C17": runC17,
 	"C18": runC18,
 	"C19": runC19,
